@@ -13,5 +13,6 @@ def run(ctx):
     # the in-memory side of a clean close (drain merges, final persist of every modified table)
     ctx.tlc_mc("Pipeline.tla", "Pipeline_quick.cfg", timeout=300)
     ctx.tlc_mc("Pipeline.tla", "Pipeline_dev_f20.cfg", timeout=300, expect_violation="ReopenSeesAll", count=False)
-    durcommon.run_file(ctx, "reopen", 60 if ctx.thorough() else 4, 0, "C04")
+    for k in range(4 if ctx.thorough() else 1):
+        durcommon.run_file(ctx, "reopen", 60 if ctx.thorough() else 4, 0, "C04" + "abcd"[k:k+1] * (k > 0))
     ctx.assumptions += durcommon.ASSUME
